@@ -3,7 +3,9 @@
    [K] ranges over every many-valued context whose columns all have mv_n K rows ([mv_wf]), each
    column any of the four shipped structures with any data. *)
 From FCA Require Import Base.ListSet Model.MVContext Spec.MVLatticeSpec Lemmas.C13 Lemmas.C14
-     Lemmas.C14_Lattice Lemmas.C14_Objectwise.
+     Lemmas.C14_Lattice Lemmas.C14_Objectwise Lemmas.C14_Names Lemmas.C14_Order Lemmas.C14_Stack
+     Model.MVContextStack Spec.LatticeOrderSpec.
+From Coq Require Import Permutation.
 
 (* extension_i combines the per-column structures conjunctively: successive narrowing with the
    early exit = one filter of the base set (base order, original indexes), for every
@@ -126,12 +128,94 @@ Theorem C14_paths_agree_guarded : forall K thr1 thr2,
 Proof. exact paths_agree_guarded. Qed.
 Print Assumptions C14_paths_agree_guarded.
 
+(* ---- "ordered by inclusion": in the lattice object built from a many-valued context (either
+   path; [L] is any listing order of the yielded concepts - sort_concepts is one permutation)
+   children / parents (POSet's cache-free subtraction loops over PatternConcept.__le__,
+   Model/LatticeOrder.v) are exactly the lower / upper covers w.r.t. proper inclusion of extents
+   and <= is inclusion of extents *)
+Theorem C14_lattice_order : forall K thr cs L,
+  mv_wf K -> mv_n K <> 0 -> mv_cols K <> [] -> guard_D16 K = true -> guard_D17 K = true ->
+  mv_from_context K thr = Some cs -> Permutation cs L ->
+  forall i, i < length L ->
+    mv_children L i = spec_children (map pc_ext L) i /\
+    mv_parents L i = spec_parents (map pc_ext L) i /\
+    (forall j, mv_leq L i j = subsetb (set_at (map pc_ext L) i) (set_at (map pc_ext L) j)).
+Proof. exact lattice_order. Qed.
+Print Assumptions C14_lattice_order.
+
+(* ---- the code's explicit stack (deque, pop from the right, children pushed for g = n-1 .. last)
+   yields exactly the sequence of the pre-order recursion the other theorems talk about *)
+Theorem C14_objectwise_stack_is_recursion : forall K fuel,
+  mv_n K * length (mv_cbo_objectwise K) + 1 <= fuel ->
+  mv_cbo_objectwise_stack K fuel = SDone (mv_cbo_objectwise K).
+Proof. exact mv_cbo_objectwise_stack_eq. Qed.
+Print Assumptions C14_objectwise_stack_is_recursion.
+
+(* ---- by-name wrappers.  Structure names are ps.name (pattern_types order), whatever the order
+   of attribute_names; object names the context does not have are ignored; the base set becomes
+   an ascending index set *)
+Theorem C14_extension_named_ok : forall K dsi bi extra,
+  NoDup (mv_pnames K) -> NoDup (mv_onames K) ->
+  length (mv_pnames K) = length (mv_cols K) -> length (mv_onames K) = mv_n K ->
+  ddict_ok K dsi -> in_range (mv_n K) bi -> (forall x, In x extra -> ~ In x (mv_onames K)) ->
+  mv_extension K (name_ddict K dsi) (Some (map (obname K) bi ++ extra))
+  = Ok (map (obname K) (filter (fun g => mem g bi && covers_ddict K dsi g) (seq 0 (mv_n K)))).
+Proof. exact extension_named_ok. Qed.
+Print Assumptions C14_extension_named_ok.
+
+Theorem C14_extension_named_nobase_ok : forall K dsi,
+  NoDup (mv_pnames K) -> length (mv_pnames K) = length (mv_cols K) -> ddict_ok K dsi ->
+  mv_extension K (name_ddict K dsi) None
+  = Ok (map (obname K) (filter (covers_ddict K dsi) (seq 0 (mv_n K)))).
+Proof. exact extension_named_nobase_ok. Qed.
+Print Assumptions C14_extension_named_nobase_ok.
+
+Theorem C14_extension_named_keyerr : forall K known x dx rest base,
+  NoDup (mv_pnames K) -> (forall id, In id known -> fst id < length (mv_pnames K)) ->
+  ~ In x (mv_pnames K) ->
+  mv_extension K (name_ddict K known ++ (x, dx) :: rest) base = ErrKey x.
+Proof. exact extension_named_keyerr. Qed.
+Print Assumptions C14_extension_named_keyerr.
+
+Theorem C14_intention_named_ok : forall K oi extra,
+  NoDup (mv_onames K) -> length (mv_onames K) = mv_n K -> in_range (mv_n K) oi ->
+  (forall x, In x extra -> ~ In x (mv_onames K)) ->
+  mv_intention K (map (obname K) oi ++ extra)
+  = map (fun i => (pname K i, ps_intention (mv_col K i) (filter (fun g => mem g oi) (seq 0 (mv_n K)))))
+        (seq 0 (length (mv_cols K))).
+Proof. exact intention_named_ok. Qed.
+Print Assumptions C14_intention_named_ok.
+
+Theorem C14_describe_entries_ok : forall K dsi,
+  NoDup (mv_pnames K) -> (forall id, In id dsi -> fst id < length (mv_pnames K)) ->
+  describe_entries K (name_ddict K dsi) = Some (name_ddict K (filter (printed K) dsi)).
+Proof. exact describe_entries_ok. Qed.
+Print Assumptions C14_describe_entries_ok.
+
+(* ---- PatternConcept.from_objects, all four views (defect D62, repaired in /repo 6bbdea5: the
+   intent used to be keyed by attribute_names[ps_index]): whatever the order of attribute_names,
+   every description is paired with the name of its own structure *)
+Theorem C14_from_objects_views : forall K objs is_extent,
+  let v := pc_from_objects_views K objs is_extent in
+  pv_int v = map (fun p => (pname K (fst p), snd p)) (pv_int_i v) /\
+  pv_ext v = map (obname K) (pv_ext_i v) /\
+  pv_int_i v = mv_intention_i K objs /\
+  pv_ext_i v = (if is_extent then objs else mv_cl K objs).
+Proof. exact from_objects_views. Qed.
+Print Assumptions C14_from_objects_views.
+
+Example C14_from_objects_views_nonvacuous :
+  mv_anames K62 <> mv_pnames K62 /\
+  pv_int (pc_from_objects_views K62 [0] false) = [(1, DAttr true); (0, DIv (Some (0, 1)%Z))] /\
+  mv_intention K62 [0] = [(1, DAttr true); (0, DIv (Some (0, 1)%Z))].
+Proof. exact from_objects_views_K62. Qed.
+
 (* Non-vacuity: a 3-row context mixing a numpy interval column with proper intervals, a
    set-valued and a boolean column meets the hypotheses; its closures, binarisation and both
    lattices are the expected ones. *)
 Definition exK : mvctx :=
   mkMV 3 [CIntervalNp [(0, 1); (2, 2); (1, 1)]%Z; CSet [[1]; [1; 2]; []]; CAttr [true; false; true]]
-       [10; 11; 12] [20; 21; 22].
+       [10; 11; 12] [20; 21; 22] [20; 21; 22].
 Example C14_nonvacuous :
   mv_wf exK /\ mv_n exK <> 0 /\ in_range (mv_n exK) [2] /\ [2] <> [] /\
   ddict_ok exK [(2, DAttr true); (0, DIv (Some (0, 1)%Z))] /\
